@@ -19,6 +19,7 @@ mod fam_norm;
 mod zoo;
 mod fam_trace;
 mod fam_frame;
+mod fam_coll;
 mod fam_report;
 
 use std::{collections::BTreeMap, collections::HashSet, fs, io::Write as _, path::Path};
@@ -43,6 +44,7 @@ fn families() -> Vec<(&'static str, fn(&mut Rng, usize) -> Case)> {
         ("zoo.dispatch", zoo::gen_dispatch),
         ("trace.run", fam_trace::gen_trace),
         ("trace.frame", fam_frame::gen_frame),
+        ("trace.coll", fam_coll::gen_coll),
         ("report.run", fam_report::gen_report),
     ]
 }
